@@ -1910,6 +1910,15 @@ where
 		keychain_mask: Option<&SecretKey>,
 		frequency: Duration,
 	) -> Result<(), Error> {
+		// Check the token here: the updater thread's own failure is only logged, and it would
+		// leave the wallet marked as 'being updated in the background' with nothing updating it
+		{
+			let mut w_lock = self.wallet_inst.lock();
+			let lc = w_lock.lc_provider()?;
+			if let Ok(w) = lc.wallet_inst() {
+				w.keychain(keychain_mask)?;
+			}
+		}
 		let updater_inner = self.updater.clone();
 		let tx_inner = {
 			let t = self.status_tx.lock();
